@@ -98,7 +98,10 @@ def run(cx, chk):
     for cfg, F in cx.cfgs():
         c01.r4(cx, Relabel(chk, {"C01.R4": "C03.R9"}), cfg, F)
         items = c19.iterator_items(F)
-        c19.s1s2(Relabel(chk, {"C19.S1": "C03.R10", "C19.S2": "C03.R10"}), cfg, F, {h for h, o in items.items() if c19.has_mut_ref(o)})
+        muts = {h for h, o in items.items() if c19.has_mut_ref(o)}
+        c19.s1s2(Relabel(chk, {"C19.S1": "C03.R10", "C19.S2": "C03.R10"}), cfg, F, muts)
+        # ... nor can a mutable iterator be duplicated: two copies hand out two live &mut to the same node's value
+        c19.s3(Relabel(chk, {"C19.S3": "C03.R10"}, keep=lambda key: True), cfg, F, items, muts)
     for cfg, F in cx.cfgs():
         got = drop_seen.get(cfg)
         if not got:
